@@ -330,6 +330,29 @@ func genArgposCases(r *h.Rand) []h.Case {
 		iss = append(iss, "{{isset("+x+")}}")
 	}
 	mk("argpos", "[{{ recset("+join(sargs)+") }}]", "[["+strings.Join(iss, " ")+"]]")
+	// a piped value that is invalid (missing map entry, nil) is still an argument of a jet.Func: it is counted,
+	// sits where the pipe or the slot puts it, and reads as "not set" - exactly as in the plain call
+	inv := r.Pick([]string{"m.zz", "n", "st.D.zz", "nm.k"})
+	rest := args
+	if len(rest) > 3 {
+		rest = rest[:3]
+	}
+	plainArgs := append([]string{inv}, rest...)
+	piped := inv + " | rec(" + join(rest) + ")"
+	switch r.Intn(4) {
+	case 0:
+		piped = inv + " | rec: " + join(rest)
+		if len(rest) == 0 {
+			piped = inv + " | rec"
+		}
+	case 1:
+		k := r.Intn(len(rest) + 1)
+		plainArgs = append(append(append([]string{}, rest[:k]...), inv), rest[k:]...)
+		with := append(append(append([]string{}, rest[:k]...), "_"), rest[k:]...)
+		piped = inv + " | rec(" + join(with) + ")"
+	}
+	mk("argpos", "[{{ "+piped+" }}]", "[{{ rec("+join(plainArgs)+") }}]")
+	mk("argpos", "[{{ "+strings.Replace(piped, "rec", "recset", 1)+" }}]", "[{{ recset("+join(plainArgs)+") }}]")
 	return cs
 }
 
